@@ -53,6 +53,11 @@ Proof. exact fixings_ok. Qed.
 Theorem C07_easter_is_a_sunday : forall y, 1970 <= y <= 2200 ->
   weekday (easter y) = 6 /\ days_from_civil y 3 22 <= easter y <= days_from_civil y 4 25 /\ year_of (easter y) = y.
 Proof. exact easter_bounds. Qed.
+(* a `Fixed m dd o` rule holds on day n exactly when n is the date (m, dd) of some year moved by the pandas observance o *)
+Theorem C07_observance_reading : forall m dd o n, kind_wf (Fixed m dd o) = true ->
+  (fixed_hit m dd o (dctx_of n) = true <->
+   exists b, month_of b = m /\ day_of b = dd /\ n = b + obs_shift o (weekday b)).
+Proof. exact fixed_hit_spec. Qed.
 Theorem C07_rules_well_formed : forallb (fun nr => rules_wf (snd nr)) (full_rules ++ partial_rules) = true.
 Proof. exact all_rules_wf. Qed.
 
@@ -82,3 +87,4 @@ Print Assumptions C07_doc_names.
 Print Assumptions C07_fixings.
 Print Assumptions C07_easter_is_a_sunday.
 Print Assumptions C07_rules_well_formed.
+Print Assumptions C07_observance_reading.
